@@ -693,7 +693,7 @@ def pair_jobs(tier):
     # ---- sums, MPSFloat (unbounded above): p -> (ideal modes, fast, classic, priest modes, nparts, stride)
     if not T:
         sums = {2: (ALL, RN, RN, ALL, 1, 1), 3: (ALL, RN, RN, ALL, 1, 1), 4: (ALL, RN, RN, ALL, 2, 1),
-                5: (SUBI, RN, RN, SUBP, 4, 4), 6: (('RNE',), ('RNE',), RN, ('RTZ', 'RTN'), 4, 32)}
+                5: (SUBI, RN, RN, SUBP, 4, 6), 6: (('RNE',), ('RNE',), RN, ('RTZ', 'RTN'), 4, 32)}
     else:
         sums = {2: (ALL, RN, RN, ALL, 1, 1), 3: (ALL, RN, RN, ALL, 1, 1), 4: (ALL, RN, RN, ALL, 4, 1),
                 5: (ALL, RN, RN, ALL, 16, 1), 6: (SUBI, RN, RN, SUBP, 16, 4), 7: (('RNA',), RN, RN, ('RNE', 'RAZ', 'RTE'), 16, 32),
@@ -776,6 +776,8 @@ def dec_jobs(tier):
                 if es + p > (9 if T else 7):
                     continue
                 for ov in ('OVERFLOW', 'SATURATE'):
+                    if ov == 'SATURATE' and not T and rm not in ('RNE', 'RTZ', 'RTP', 'RTO'):
+                        continue
                     jobs.append(('ldexp', _ieee(es, es + p, rm, ov)))
     for rm in ('RNE', 'RTP'):
         jobs.append(('ldexp', ('mpfixed', (-3,), {'rm': rm})))
